@@ -10,8 +10,8 @@ from ..explref import decoded_subset
 from ..qnum import Q
 
 SHARDS = {"quick": 1, "thorough": 16}
-N_BATCH = {"quick": 500, "thorough": 2500}
-N_INTERVAL = {"quick": 250, "thorough": 1200}
+N_BATCH = {"quick": 1200, "thorough": 4000}
+N_INTERVAL = {"quick": 400, "thorough": 1500}
 
 
 class Bad(Exception):
